@@ -406,9 +406,11 @@ def yaml_safe_json(doc: Any) -> str:
     return "".join(out)
 
 
-def member_doc(names: list[str], required: list[str] | None = None, nested: str | None = None) -> dict:
-    props: dict[str, Any] = {n: {"type": "integer"} for n in names}
-    if nested is not None and nested in props:
+def member_doc(names: list[str], required: list[str] | None = None, nested: str | None = None,
+               bools: dict[str, bool] | None = None) -> dict:
+    """`bools`: properties whose schema is the boolean schema `true` / `false` (declared in the order of `names`)"""
+    props: dict[str, Any] = {n: (bools[n] if bools and n in bools else {"type": "integer"}) for n in names}
+    if nested is not None and nested in props and not (bools and nested in bools):
         props[nested] = {"type": "object", "properties": {"q": {"type": "integer"}}}
     doc: dict[str, Any] = {"title": "M", "type": "object", "properties": props}
     if required:
@@ -416,19 +418,21 @@ def member_doc(names: list[str], required: list[str] | None = None, nested: str 
     return doc
 
 
-def stage1_fields(names: list[str], cfg: Cfg, timeout: float = 5.0) -> str:
-    """(name, alias) of the members after the real parse_object_fields (Parser.results, stage 1)"""
+def stage1_fields(names: list[str], cfg: Cfg, timeout: float = 5.0, bools: dict[str, bool] | None = None) -> str:
+    """(name, alias, typed Any?) of the members after the real parse_object_fields (Parser.results, stage 1)"""
     from datamodel_code_generator.parser.jsonschema import JsonSchemaParser
 
     try:
         with watchdog(timeout), warnings.catch_warnings():
             warnings.simplefilter("ignore")
-            p = JsonSchemaParser(yaml_safe_json(member_doc(names)), **parser_kwargs(cfg))
+            p = JsonSchemaParser(yaml_safe_json(member_doc(names, bools=bools)), **parser_kwargs(cfg))
             p.parse_raw()
         ms = [m for m in p.results if m.class_name == "M"]
         if len(ms) != 1:
             return f"unexpected {len(ms)} models named M"
-        return "ok" + "".join(f" {hx(f.name)} {'none' if f.alias is None else hx(f.alias)}" for f in ms[0].fields)
+        return "ok" + "".join(
+            f" {hx(f.name)} {'none' if f.alias is None else hx(f.alias)} {int(f.data_type.type == 'Any')}" for f in ms[0].fields
+        )
     except Hang:
         return "fuel"
     except (ValueError, IndexError):
@@ -437,8 +441,9 @@ def stage1_fields(names: list[str], cfg: Cfg, timeout: float = 5.0) -> str:
         return f"rejected {type(e).__name__}"
 
 
-def real_fold(names: list[str], cfg: Cfg, kind: str = "pydantic") -> str:
-    """the loop of parse_object_fields, replayed on the real resolver"""
+def real_fold(names: list[str], cfg: Cfg, kind: str = "pydantic", bools: dict[str, bool] | None = None) -> str:
+    """the loop of parse_object_fields, replayed on the real resolver (every name is added to the excludes,
+    boolean-schema or not)"""
     res = resolver_classes()[kind](**cfg.kwargs())
     excl: set[str] = set()
     out = []
@@ -452,14 +457,47 @@ def real_fold(names: list[str], cfg: Cfg, kind: str = "pydantic") -> str:
         return "fuel"
     except (ValueError, IndexError):
         return "error"
-    return "ok" + "".join(f" {hx(f)} {'none' if a is None else hx(a)}" for f, a in out)
+    return "ok" + "".join(
+        f" {hx(f)} {'none' if a is None else hx(a)} {int(bool(bools) and n in bools)}" for (f, a), n in zip(out, names)
+    )
 
 
 def decode_fold(rep: str):
+    """[(member name, alias)] of a fold reply (`ok name alias any …`), or the error token"""
     if not rep.startswith("ok"):
         return rep
     toks = rep.split(" ")[1:]
-    return [(unhx(toks[i]), None if toks[i + 1] == "none" else unhx(toks[i + 1])) for i in range(0, len(toks), 2)]
+    return [(unhx(toks[i]), None if toks[i + 1] == "none" else unhx(toks[i + 1])) for i in range(0, len(toks), 3)]
+
+
+def decode_any_flags(rep: str) -> list[bool]:
+    toks = rep.split(" ")[1:]
+    return [toks[i + 2] == "1" for i in range(0, len(toks), 3)]
+
+
+def props_sx(names: list[str], bools: dict[str, bool] | None) -> str:
+    return "(" + " ".join(f"({hx(n)} {int(bool(bools) and n in bools)})" for n in names) + ")"
+
+
+def gen_bools(rng: Rng, names: list[str]) -> dict[str, bool]:
+    """boolean schemas (`true` and `false`) mixed with ordinary ones, at any position"""
+    if rng.chance(1, 2):
+        return {}
+    return {n: rng.chance(2, 3) for n in names if rng.chance(2, 5)}
+
+
+# boolean-schema property declared before / after an ordinary one that sanitises to the same identifier
+BOOL_COLLISIONS = [
+    (["created-at", "created_at"], {"created-at": True}),
+    (["created_at", "created-at"], {"created-at": True}),
+    (["created-at", "created_at"], {"created_at": False}),
+    (["a b", "a-b", "a_b"], {"a-b": True}),
+    (["a-b", "a b", "a_b"], {"a-b": True, "a b": False}),
+    (["class", "class_"], {"class": True}),
+    (["class_", "class"], {"class": True}),
+    (["_x", "field_x", "#x"], {"_x": True, "#x": True}),
+    (["x", "x#", "x_"], {"x#": False}),
+]
 
 
 def campaign_fold(ck: Check, n: int, names_pool: list[str]) -> None:
@@ -474,20 +512,23 @@ def campaign_fold(ck: Check, n: int, names_pool: list[str]) -> None:
         if rng.chance(1, 5):
             tgt = rng.choice(["alias_target", "x", names[-1], "class"])
             cfg = dataclasses.replace(cfg, aliases=((names[0], tgt),))
-        cases.append((names, cfg))
+        cases.append((names, cfg, gen_bools(rng, names)))
+    cases = [(ns, Cfg(), dict(bs)) for ns, bs in BOOL_COLLISIONS] + cases
     # ModelResolver hands capitalise_enum_members to the ENUM resolver only: members are never capitalised
     member_cfg = lambda c: dataclasses.replace(c, cap=False)  # noqa: E731
-    replies = ck.driver.run([f"names.fold pydantic {member_cfg(c).sx()} {sx_list(ns)}" for ns, c in cases])
-    for (names, cfg), rep in zip(cases, replies):
+    replies = ck.driver.run([f"names.fold pydantic {member_cfg(c).sx()} {props_sx(ns, bs)}" for ns, c, bs in cases])
+    for (names, cfg, bools), rep in zip(cases, replies):
         if hung(ck):
             break
         camp.evaluations += 1
-        inp = {"names": names, "cfg": cfg.label(), "cfg_fields": dataclasses.asdict(cfg)}
+        inp = {"names": names, "bools": bools, "cfg": cfg.label(), "cfg_fields": dataclasses.asdict(cfg)}
+        if bools:
+            camp.hit("boolean_schema_props")
         if member_cfg(cfg).uses_lower() and any("Σ" in x for x in names):
             camp.unmodelled += 1
             continue
-        impl_fn = real_fold(names, member_cfg(cfg))
-        impl_s1 = stage1_fields(names, cfg)
+        impl_fn = real_fold(names, member_cfg(cfg), bools=bools)
+        impl_s1 = stage1_fields(names, cfg, bools=bools)
         camp.hit("props:" + str(len(names)))
         camp.hit("result:" + impl_s1.split(" ")[0])
         if impl_s1.startswith("rejected"):
@@ -498,8 +539,8 @@ def campaign_fold(ck: Check, n: int, names_pool: list[str]) -> None:
         dec = decode_fold(impl_s1)
         if isinstance(dec, list):
             if any(f != n_ for (f, _), n_ in zip(dec, names)):
-                camp.distinct.add((tuple(names), cfg.label()))
-            oracle_fields(ck, camp, inp, names, cfg, dec)
+                camp.distinct.add((tuple(names), cfg.label(), tuple(sorted(bools.items()))))
+            oracle_fields(ck, camp, inp, names, cfg, dec, decode_any_flags(impl_s1), bools)
         if impl_s1 == "fuel":
             ck.fail({"oracle": "stage1_members", "mechanism": "hang", "prefix_ok": cfg.prefix_ok()}, inp, "parse_raw() did not return within 5 s")
         if rep != impl_fn:
@@ -511,8 +552,10 @@ def campaign_fold(ck: Check, n: int, names_pool: list[str]) -> None:
     camp.wall_s = time.time() - t0
 
 
-def oracle_fields(ck: Check, camp, inp: dict, names: list[str], cfg: Cfg, fields: list) -> None:
-    """C07 on the members of one class as the real parser produced them (stage 1)"""
+def oracle_fields(ck: Check, camp, inp: dict, names: list[str], cfg: Cfg, fields: list,
+                  any_flags: list[bool] | None = None, bools: dict[str, bool] | None = None) -> None:
+    """C07 on the members of one class as the real parser produced them (stage 1): one member per property —
+    ordinary or boolean-schema —, legal distinct names, every wire key reachable"""
     base = {"oracle": "stage1_members", "prefix_ok": cfg.prefix_ok()}
     hit_alias_map = any(n in dict(cfg.aliases) for n in names)
     fnames = [f for f, _ in fields]
@@ -532,6 +575,10 @@ def oracle_fields(ck: Check, camp, inp: dict, names: list[str], cfg: Cfg, fields
     for (f, a), n in zip(fields, names):
         if a is not None and a != n:
             ck.fail({**base, "mechanism": "wire_key"}, inp, f"alias {a!r} of {f!r} is not the original name {n!r}")
+    if any_flags is not None:
+        for (f, _), n, is_any in zip(fields, names, any_flags):
+            if bools and n in bools and not is_any:
+                ck.fail({**base, "mechanism": "boolean_schema_type"}, inp, f"member {f!r} of the boolean-schema property {n!r} is not typed Any")
 
 
 # ---------------------------------------------------------------- end-to-end oracle
@@ -550,16 +597,20 @@ def nfkc_unstable(code: str, names: list[str]) -> bool:
         return any(unicodedata.normalize("NFKC", n) != n for n in names)
 
 
-def e2e_case(ck: Check, camp, names: list[str], cfg: Cfg, model: str, required: bool = False, nested: str | None = None) -> None:
+def e2e_case(ck: Check, camp, names: list[str], cfg: Cfg, model: str, required: bool = False, nested: str | None = None,
+             bools: dict[str, bool] | None = None) -> None:
     """name(s) → JSON-Schema document → real generate() → parse, import, members exist, legal and distinct,
     validate-then-dump round trip under the original keys"""
     camp.evaluations += 1
     camp.hit("kind:" + model)
     camp.hit("props:" + str(len(names)))
-    inp = {"names": names, "cfg": cfg.label(), "model": model, "required": required, "nested": nested,
+    bools = {n: b for n, b in (bools or {}).items() if n in names}
+    if bools:
+        camp.hit("boolean_schema_props")
+    inp = {"names": names, "bools": bools, "cfg": cfg.label(), "model": model, "required": required, "nested": nested,
            "cfg_fields": dataclasses.asdict(cfg)}
     base = {"oracle": "e2e_member", "kind": model, "prefix_ok": cfg.prefix_ok(), "trigger": "none"}
-    doc = member_doc(names, names if required else None, nested)
+    doc = member_doc(names, names if required else None, nested, bools)
     res = e2e.run_generate(yaml_safe_json(doc), model=model, opts=parser_kwargs(cfg), timeout=10.0)
     if res.hang:
         ck.fail({**base, "mechanism": "hang"}, inp, "generate() did not return within 10 s")
@@ -622,7 +673,7 @@ def e2e_case(ck: Check, camp, names: list[str], cfg: Cfg, model: str, required: 
             elif p.startswith("_") and cfg.prefix_ok() and model.startswith("pydantic"):
                 ck.fail({**base, "mechanism": "leading_underscore"}, inp, f"member {p!r} starts with an underscore")
     if model == "typing.TypedDict" and not hit_alias_map and nested is None:
-        st1 = decode_fold(real_fold(names, dataclasses.replace(cfg, cap=False)))
+        st1 = decode_fold(real_fold(names, dataclasses.replace(cfg, cap=False), bools=bools))
         if isinstance(st1, list):
             TD_OBSERVED.append(([(f, n_) for (f, _), n_ in zip(st1, names)], "= TypedDict(" in res.code, inp))
     keeps_wire = model != "dataclasses.dataclass" and not cfg.noalias
@@ -630,8 +681,10 @@ def e2e_case(ck: Check, camp, names: list[str], cfg: Cfg, model: str, required: 
         wire = sorted(w for _, w in members)
         if wire != sorted(names):
             ck.fail({**base, "mechanism": "wire_key"}, inp, f"wire keys {wire!r} differ from the property names {sorted(names)!r}")
-        elif model.startswith("pydantic") and nested is None:
-            inst = {n: i for i, n in enumerate(names)}
+        elif model.startswith("pydantic") and nested is None and not (required and False in bools.values()):
+            # (no instance satisfies the boolean schema `false`: those members are left out of the instance,
+            #  and a class that requires such a member has no valid instance at all)
+            inst = {n: i for i, n in enumerate(names) if bools.get(n) is not False}
             try:
                 if model == "pydantic_v2.BaseModel":
                     back = mod.M.model_validate(inst).model_dump(by_alias=True, exclude_unset=True)
@@ -641,6 +694,23 @@ def e2e_case(ck: Check, camp, names: list[str], cfg: Cfg, model: str, required: 
                 back = f"{type(e).__name__}: {str(e)[:160]}"
             if back != inst:
                 ck.fail({**base, "mechanism": "roundtrip"}, inp, f"validate-then-dump of {inst!r} gave {back!r}")
+    if bools and model != "msgspec.Struct" and (keeps_wire or (model == "dataclasses.dataclass" and not required)):
+        # the member of a boolean-schema property exists (counted above) and is typed Any
+        import typing
+
+        try:
+            hints = typing.get_type_hints(mod.M)
+        except Exception:  # noqa: BLE001
+            hints = {}
+        # property → member: through the wire key where there is one, by position for (all-optional) dataclasses
+        by_prop = {w: p for p, w in members} if keeps_wire else dict(zip(names, pnames))
+        for n in bools:
+            p = by_prop.get(n)
+            if p is None or p not in hints:
+                continue
+            h = hints[p]
+            if not (h is typing.Any or (typing.get_origin(h) is typing.Union and typing.Any in typing.get_args(h))):
+                ck.fail({**base, "mechanism": "boolean_schema_type"}, inp, f"member {p!r} of the boolean-schema property {n!r} is typed {h!r}, not Any")
     if model != "msgspec.Struct":
         e2e.unload(mod)
     if len(camp.samples) < 3 and any(p != n for p, n in zip(pnames, names)):
@@ -726,6 +796,9 @@ def campaign_e2e(ck: Check, n: int, names_pool: list[str]) -> None:
     ug = uni_groups()
     for names, cfg, model in E2E_CORPUS:
         e2e_case(ck, camp, names, cfg, model)
+    for i, (names, bools) in enumerate(BOOL_COLLISIONS):
+        for model in (e2e.MODEL_KINDS[i % 5], e2e.MODEL_KINDS[(i + 3) % 5]):
+            e2e_case(ck, camp, names, Cfg(), model, bools=bools)
     e2e_cfgs = [c for c in CFGS if c.delim != ""]
     for i in range(n):
         if hung(ck):
@@ -736,7 +809,7 @@ def campaign_e2e(ck: Check, n: int, names_pool: list[str]) -> None:
             cfg = dataclasses.replace(cfg, aliases=((names[0], "alias_target"),))
         model = e2e.MODEL_KINDS[i % len(e2e.MODEL_KINDS)]
         nested = names[0] if rng.chance(1, 10) else None
-        e2e_case(ck, camp, names, cfg, model, required=rng.chance(1, 3), nested=nested)
+        e2e_case(ck, camp, names, cfg, model, required=rng.chance(1, 3), nested=nested, bools=gen_bools(rng, names))
     camp.wall_s = time.time() - t0
 
 
@@ -774,11 +847,20 @@ def search_names(ck: Check) -> None:
             e2e_case(ck, camp, list(names) + extra, Cfg(), model)
             if ck.failures:
                 return
+    for names, bools in BOOL_COLLISIONS:
+        for model in ("pydantic_v2.BaseModel", "typing.TypedDict"):
+            e2e_case(ck, camp, names, Cfg(), model, bools=bools)
+            if ck.failures:
+                return
     for n in small_scope(2):
         for names in ([n], [n, n + "_"], [n + "-", n + "+", n + "_"]):
             e2e_case(ck, camp, names, Cfg(), "pydantic_v2.BaseModel")
             if ck.failures:
                 return
+            if len(names) > 1:
+                e2e_case(ck, camp, names, Cfg(), "pydantic_v2.BaseModel", bools={names[0]: True})
+                if ck.failures:
+                    return
     for w in list(keyword.kwlist) + uni.reserved():
         e2e_case(ck, camp, [w, w + "_"], Cfg(), "pydantic_v2.BaseModel")
         if ck.failures:
@@ -831,11 +913,12 @@ def replay(ck: Check, path: str) -> int:
     cf = inp.get("cfg_fields") or {}
     cfg = Cfg(**{k: (tuple(map(tuple, v)) if k == "aliases" else v) for k, v in cf.items()})
     if "model" in inp and "names" in inp:
-        e2e_case(ck, camp, inp["names"], cfg, inp["model"], inp.get("required", False), inp.get("nested"))
+        e2e_case(ck, camp, inp["names"], cfg, inp["model"], inp.get("required", False), inp.get("nested"), inp.get("bools"))
     elif "names" in inp:
-        dec = decode_fold(stage1_fields(inp["names"], cfg))
+        rep = stage1_fields(inp["names"], cfg, bools=inp.get("bools"))
+        dec = decode_fold(rep)
         if isinstance(dec, list):
-            oracle_fields(ck, camp, inp, inp["names"], cfg, dec)
+            oracle_fields(ck, camp, inp, inp["names"], cfg, dec, decode_any_flags(rep), inp.get("bools"))
         elif dec == "fuel":
             ck.fail({"oracle": "stage1_members", "mechanism": "hang", "prefix_ok": cfg.prefix_ok()}, inp, "parse_raw() did not return")
     elif "name" in inp:
